@@ -30,13 +30,21 @@ def build_mbox(seed: int, feature: str | None = None, twin: bool = False):
     final_blank = rng.random() < 0.7
     out = []
     shape_rng = random.Random(f"mbox-shapes:{seed}")
+    id_rng = random.Random(f"mbox-ids:{seed}")
+    last_id = None
     for m in range(n):
         sender = f"user{m}@example.org"
         day = rng.randint(1, 28)
         zone = rng.choice(["", "", " +0000"])
         sep = f"From {sender} {_DAYS[(day + m) % 7]} Jan {day:2d} 0{m}:00:00{zone} 2024"
+        # the Message-ID is optional (drafts, script-generated mail have none), and two messages may carry the same one (a message
+        # filed under two labels): a mailbox message is a message whatever its id says
+        id_kind = id_rng.choice(["own"] * 6 + ["none", "none", "same-as-previous"])
+        if id_kind == "own" or (id_kind == "same-as-previous" and last_id is None):
+            last_id = f"<{exp.ignore(tk.new('t'))}@example.org>"
+        mid = [] if id_kind == "none" else [f"Message-ID: {last_id}"]
         hdr = [f"From: Sender {m} <{sender}>", f"To: rcpt{m}@example.org", f"Subject: {exp.ignore(tk.new('t'))} message {m}",
-               f"Date: {_DAYS[(day + m) % 7]}, {day:02d} Jan 2024 0{m}:00:00 +0000", f"Message-ID: <{exp.ignore(tk.new('t'))}@example.org>",
+               f"Date: {_DAYS[(day + m) % 7]}, {day:02d} Jan 2024 0{m}:00:00 +0000"] + mid + [
                "MIME-Version: 1.0", "Content-Type: text/plain; charset=us-ascii", "Content-Transfer-Encoding: 7bit"]
         shape = shape_rng.choice(["plain"] * 6 + ["alt-blank-plain", "alt-blank-plain", "html-only", "alt-both"])
         if shape != "plain":
@@ -73,4 +81,53 @@ def build_mbox(seed: int, feature: str | None = None, twin: bool = False):
     return data.encode("utf-8"), exp
 
 
-BUILDERS = {"mbox": (build_mbox, MBOX_FEATURES, "mbox", ".mbox")}
+EML_FEATURES: dict[str, str] = {}
+
+
+def build_eml(seed: int, feature: str | None = None, twin: bool = False):
+    """One message as an .eml document (C02/C03: one unit).  What varies is the *shape of the body*: one text/plain part, or a
+    multipart/mixed body of several inline text/plain parts (message text + signature + mailing-list footer) in every transfer
+    encoding - base64 and quoted-printable parts need not end in a line break -, or an HTML alternative next to the plain part."""
+    import base64
+    import quopri
+    rng = random.Random(f"eml:{seed}")
+    tk = Tokens()
+    exp = Expect("eml")
+    exp.unit_mode = "exact"
+    exp.n_units = 1
+    eol = rng.choice(["\n", "\r\n"])
+    hdr = [f"From: Sender <sender@example.org>", "To: rcpt@example.org", f"Subject: {exp.ignore(tk.new('t'))} a message",
+           "Date: Mon, 01 Jan 2024 10:00:00 +0000", f"Message-ID: <{exp.ignore(tk.new('t'))}@example.org>", "MIME-Version: 1.0"]
+
+    def text_part(final_newline: bool):
+        lines = [" ".join(exp.text(tk.new("b"), 0) for _ in range(rng.randint(1, 3))) for _ in range(rng.randint(1, 3))]
+        body = "\n".join(lines) + ("\n" if final_newline else "")
+        cte = rng.choice(["7bit", "base64", "quoted-printable"])
+        if cte == "base64":
+            payload = base64.encodebytes(body.encode()).decode().rstrip("\n")
+        elif cte == "quoted-printable":
+            payload = quopri.encodestring(body.encode()).decode()
+            payload = payload if final_newline else payload.rstrip("\n") + "="      # soft line break: the part ends without a line break
+        else:
+            payload = body.rstrip("\n")       # (7bit: the line break before the boundary belongs to the boundary)
+        return ["Content-Type: text/plain; charset=utf-8", f"Content-Transfer-Encoding: {cte}", "Content-Disposition: inline", "", payload]
+
+    shape = rng.choice(["single", "single", "mixed-texts", "mixed-texts", "mixed-texts", "alternative"])
+    if shape == "single":
+        part = text_part(True)
+        lines = hdr + part[:2] + [""] + part[4:]
+    elif shape == "alternative":
+        bnd = "=_alt"
+        part = text_part(True)
+        html = "<html><body><p>" + exp.ignore(tk.new("u")) + "</p></body></html>"
+        lines = hdr + [f'Content-Type: multipart/alternative; boundary="{bnd}"', "", f"--{bnd}"] + part + [f"--{bnd}", "Content-Type: text/html; charset=utf-8", "", html, f"--{bnd}--"]
+    else:
+        bnd = "=_mix"
+        lines = hdr + [f'Content-Type: multipart/mixed; boundary="{bnd}"', ""]
+        for k in range(rng.randint(2, 3)):
+            lines += [f"--{bnd}"] + text_part(rng.random() < 0.4)
+        lines += [f"--{bnd}--"]
+    return (eol.join(lines) + eol).encode("utf-8"), exp
+
+
+BUILDERS = {"mbox": (build_mbox, MBOX_FEATURES, "mbox", ".mbox"), "eml": (build_eml, EML_FEATURES, "eml", ".eml")}
